@@ -21,6 +21,10 @@ checks = [prop] + [a.split("=")[1] for a in sys.argv if a.startswith("--also=")]
 wt = Path(f"/tmp/sv-{prop.lower()}")
 subprocess.run(["git", "-C", "/repo", "worktree", "remove", "--force", str(wt)], capture_output=True)
 subprocess.check_call(["git", "-C", "/repo", "worktree", "add", "--detach", str(wt), "HEAD", "-q"])
+# private copy of /verif for the runs against the scratch tree (their translators rewrite lean/Midgard/Generated)
+VC = Path(f"/tmp/vcs-{prop.lower()}")
+subprocess.check_call(["rsync", "-a", "--delete", "--exclude", ".git", "--exclude", "seeded", "--exclude", "evidence",
+                       "--exclude", ".lock-*", f"{V}/", f"{VC}/"])
 base = json.load(open("/root/.vp/BASELINE.json"))
 want = set(base["stable_pass"])
 
@@ -60,7 +64,7 @@ try:
         r["suite_missing"] = suite()
         r["checks"] = {}
         for c in checks:
-            p = subprocess.run([str(V / "check"), c], cwd=V, capture_output=True, text=True, env={**os.environ, "MIDGARD_REPO": str(wt), "VERIF_EVIDENCE_DIR": "/tmp/sv-evidence"})
+            p = subprocess.run([str(VC / "check"), c], cwd=VC, capture_output=True, text=True, env={**os.environ, "MIDGARD_REPO": str(wt), "VERIF_EVIDENCE_DIR": f"/tmp/sv-evidence-{prop}"})
             lines = [l for l in p.stdout.splitlines() if l.startswith("VIOLATION") or l.startswith("  what:")]
             r["checks"][c] = {"exit": p.returncode, "lines": lines[:6]}
         results[k] = r
@@ -82,7 +86,5 @@ try:
             (dst / "meta.json").write_text(json.dumps(meta, indent=1))
 finally:
     subprocess.run(["git", "-C", "/repo", "worktree", "remove", "--force", str(wt)], capture_output=True)
-    # regenerate Generated files from /repo (a check run against a worktree rewrote them)
-    subprocess.run(["/venv/bin/python", str(V / "tools" / "setup.py"), "--translate-only"], capture_output=True,
-                   env={k: v for k, v in os.environ.items() if k != "MIDGARD_REPO"})
+    subprocess.run(["rm", "-rf", str(VC), f"/tmp/sv-evidence-{prop}"])
 print("SUMMARY", json.dumps({k: {c: v["exit"] for c, v in r.get("checks", {}).items()} | {"valid": r.get("demo_clean") == 0 and r.get("demo_patched", 0) != 0 and not r.get("suite_missing", ["x"])} for k, r in results.items()}))
